@@ -359,6 +359,8 @@ def load_corpus(pid):
                 cols.append((Fraction(t[1]), fr(t[2]), fr(t[3])))
             elif t[0] == "R":
                 rows.append((fr(t[1]), {int(e.split(":")[0]): Fraction(e.split(":")[1]) for e in t[3:]}, fr(t[2])))
+            elif t[0] == "CMD":
+                cfgs.append(" ".join(t[1:]))
             elif t[0] == "CFG":
                 cfg = {}
                 for kv in t[1:]:
